@@ -220,6 +220,9 @@ class ModelMixin:
                     return any(tn.split('.')[-1] == str(b).split('.')[-1] for ci in self.repo.mro(st.obj(v).cls)
                                for b in self.repo.external_bases(ci) if isinstance(b, str))
                 if isinstance(v, Opaque):
+                    spec = self.ext_spec(v.kind, 'isinstance:' + tn.split('.')[-1])
+                    if spec is not None:
+                        return bool(spec.returns)
                     return self.opaque_pred(v, 'isinstance_' + tn.replace('.', '_'))
                 if v is None or isinstance(v, (str, int, bytes)) or is_sym(v):
                     return False
@@ -230,6 +233,9 @@ class ModelMixin:
                     raise EngineError('isinstance on stored exception of unknown class')
                 return self.exc_is_subclass(v.cls, t.name)
             if isinstance(v, Opaque):
+                spec = self.ext_spec(v.kind, 'isinstance:' + t.name.split('.')[-1])
+                if spec is not None:
+                    return bool(spec.returns)
                 return self.opaque_pred(v, 'isinstance_' + t.name)
             return False
         if isinstance(t, ClassRef):
@@ -883,7 +889,7 @@ class ModelMixin:
             return None
         if name in tbl:
             return tbl[name]
-        if name.startswith('.') or name.startswith('hasattr:') or name == '[]':
+        if name.startswith('.') or name.startswith('hasattr:') or name.startswith('isinstance:') or name == '[]':
             return None
         return tbl.get('*')
 
